@@ -187,17 +187,19 @@ def TF : Transc Float := ⟨Float.exp, Float.log⟩
 def getF (j : Json) (k : String) : Except String Float := ratToFloat <$> getRat j k
 def getFL (j : Json) (k : String) : Except String (List Float) := (·.map ratToFloat) <$> getRatList j k
 
-/-- `c19.bern`: {logit, p, u, v, eps} -> formulas of LogisticBernoulli for both `b`. -/
+/-- `c19.bern`: {logit, p, u, v, eps} -> formulas of LogisticBernoulli for both `b`.
+`p`, `u`, `v` are RAW (`self.probs` and the uniform draws before `clamp_probs`): the clamps are
+part of the model (`lbRsampleC`, `lbCsampleC`); `eps` = `finfo(dtype).eps`. -/
 def hBern : Handler := fun c => do
   let l ← getF c "logit"
   let p ← getF c "p"
   let u ← getF c "u"
   let v ← getF c "v"
   let eps ← getF c "eps"
-  let z := lbRsample TF l u
+  let z := lbRsampleC TF eps l u
   let b := lbThreshold z
   let forB := fun (bb : Float) =>
-    let zc := lbCsample TF eps p v bb
+    let zc := lbCsampleC TF eps p v bb
     objJ [("zc", floatJ zc), ("thr", floatJ (lbThreshold zc)),
           ("clog", optJ floatJ (lbClogProb TF l zc bb)), ("tlog", floatJ (lbTlogProb TF l bb)),
           ("logprob_zc", floatJ (lbLogProb TF l zc))]
@@ -205,7 +207,7 @@ def hBern : Handler := fun c => do
     ("tlog", floatJ (lbTlogProb TF l b)), ("clog", optJ floatJ (lbClogProb TF l z b)),
     ("c0", forB 0.0), ("c1", forB 1.0)])
 
-/-- `c19.gumbel`: {logits, probs, us, vs, k, eps} -/
+/-- `c19.gumbel`: {logits, probs, us, vs, k, eps}; `probs`, `us`, `vs` raw (see `c19.bern`). -/
 def hGumbel : Handler := fun c => do
   let ls ← getFL c "logits"
   let ps ← getFL c "probs"
@@ -213,18 +215,30 @@ def hGumbel : Handler := fun c => do
   let vs ← getFL c "vs"
   let k ← getNat c "k"
   let eps ← getF c "eps"
-  let z := gRsample TF ls us
+  let z := gRsampleC TF eps ls us
   let b := gThreshold z
   let bk : List Float := oneHot k ls.length
-  let zc := gCsample TF eps ps vs bk
+  let zc := gCsampleC TF eps ps vs bk
   pure (objJ [("z", listJ floatJ z), ("b", listJ floatJ b), ("logprob", floatJ (gLogProb TF ls z)),
     ("tlog", floatJ (gTlogProb ls b)), ("clog", optJ floatJ (gClogProb TF ls z b)),
     ("zc", listJ floatJ zc), ("thr_zc", listJ floatJ (gThreshold zc)),
     ("clog_zc", optJ floatJ (gClogProb TF ls zc bk)), ("tlog_k", floatJ (gTlogProb ls bk)),
     ("logprob_zc", floatJ (gLogProb TF ls zc))])
 
+/-- `c19.srswor_prob`: {out_size, total, given} -> exp(log_prob) of the SRSWOR distribution
+(exact), the number of rows of the cardinality filter, and `binomial_coefficient`. -/
+def hSrsworProb : Handler := fun c => do
+  let o ← getNat c "out_size"
+  let t ← getNat c "total"
+  let g ← getNat c "given"
+  let n := (enumCard t g).length
+  pure (objJ [("prob", ratJ (srsworProb o t g)), ("n_support", natJ n),
+    ("binom", natJ (binomialCoefficient t t g)),
+    ("support_times_prob", ratJ ((n : Rat) * srsworProb o t g))])
+
 def main : IO Unit := Proto.run [
   ("c19.direct", hDirect), ("c19.is", hIS), ("c19.enumerate", hEnumerate), ("c19.imh", hIMH),
   ("c19.relax", hRelax), ("c19.srswor", hSrswor), ("c19.binom", hBinom),
   ("c19.enum_vocab", hEnumVocab), ("c19.enum_card", hEnumCard),
-  ("c19.enum_card_tensor", hEnumCardTensor), ("c19.bern", hBern), ("c19.gumbel", hGumbel)]
+  ("c19.enum_card_tensor", hEnumCardTensor), ("c19.bern", hBern), ("c19.gumbel", hGumbel),
+  ("c19.srswor_prob", hSrsworProb)]
